@@ -278,7 +278,12 @@ def _status_of(e):
 async def _scenario(loop, sc):
     import aioftp
 
-    if sc.get("peer") is not None:
+    if sc.get("rbackend") == "memory-short-reads":
+        from props import thirdparty
+
+        wd = W.World(loop, [W.UserSpec(None, None)], backend="memory")
+        wd.backend_cls = thirdparty.ShortReadIO
+    elif sc.get("peer") is not None:
         # the peer is not aioftp: a scripted server with another spelling of replies and listings (harness/foreign.py)
         import foreign
 
@@ -301,11 +306,17 @@ async def _scenario(loop, sc):
         wd.set_tree([(tuple(p), None if c is None else bytes.fromhex(c)) for p, c in sc["remote"]])
         lentries = [(tuple(p), None if c is None else bytes.fromhex(c)) for p, c in sc["local"]]
         lcwd = sc["lcwd"]
-        if sc["lbackend"] == "memory":
+        if sc["lbackend"] in ("memory", "memory-short-reads"):
             lstate = _mem_state(lentries)
+            mem_cls = aioftp.MemoryPathIO
+            if sc["lbackend"] == "memory-short-reads":
+                # a local store of somebody else's: a read returns fewer bytes than asked before the end of the file
+                from props import thirdparty
+
+                mem_cls = thirdparty.ShortReadIO
 
             def factory(*a, **k):
-                return aioftp.MemoryPathIO(*a, state=lstate, cwd=lcwd, **k)
+                return mem_cls(*a, state=lstate, cwd=lcwd, **k)
 
             def ldump():
                 return _mem_dump(lstate)
@@ -771,6 +782,13 @@ def gen_scenarios(ctx, search=False):
                     sc["peer"] = peer
                     scs.append(sc)
                     n += 1
+    # (10) stores of somebody else's on either side: reads shorter than asked before the end of the file
+    bigf = ("D", {"big1": ("F", bytes(range(256)) * 5), "d": ("D", {"small": ("F", b"s"), "e": ("F", b"")})})
+    for rb, lb in (("memory", "memory-short-reads"), ("memory-short-reads", "memory"), ("memory-short-reads", "memory-short-reads")):
+        for bs in (8192, 3, 1):
+            for m in (True, False):
+                scs.append(make_scenario(bigf, bigf, "d", True, "/", m, bs, "", False, variant=n - n % 10, rbackend=rb, lbackend=lb))
+                n += 1
     # destination collisions that must merge / not collide: dest 'd' while the source contains 'd', etc. are in FIXED
     if not search:
         scs += malformed_scenarios()
@@ -826,7 +844,7 @@ def _run(ctx, scs, compare=True):
             f = oracle_op(sc, op, rec)
             if f:
                 res.oracle_failures.append(f)
-            if compare and sc.get("peer") is None:  # (the model's other half is aioftp's server)
+            if compare and sc.get("peer") is None and "short" not in sc["rbackend"] + sc["lbackend"]:  # (the model's other half is aioftp's server)
                 lines.append(model_line(sc, op, rec))
                 where.append((sc, op, rec))
     if compare and ctx.model_ok and lines:
